@@ -103,8 +103,29 @@ func verifyFunction(fn *ssa.Function) (res *FuncResult) {
 		post.assume = func(t *Term) { ex.assume(Implies(retReach, t)) }
 		post.bindResults(fn.Signature, sp, vals)
 		ex.topFrame.curState = out
-		// ghost assignments at exit
+		// ghost assignments at exit (ghostlocal values may mention the function's locals)
+		localEnv := *post
+		localEnv.vars = map[string]CVal{}
+		for k, v := range post.vars {
+			localEnv.vars[k] = v
+		}
+		for _, b := range fn.Blocks {
+			for _, insn := range b.Instrs {
+				if d, ok := insn.(*ssa.DebugRef); ok && !d.IsAddr && d.Object() != nil {
+					if _, exists := post.vars[d.Object().Name()]; exists {
+						continue
+					}
+					if t, ok := ex.topFrame.vals[d.X]; ok {
+						localEnv.vars[d.Object().Name()] = CVal{T: t, Ty: d.X.Type()}
+					}
+				}
+			}
+		}
 		for _, gs := range sp.GhostSets {
+			post := post
+			if gs.Local {
+				post = &localEnv
+			}
 			var locs []Loc
 			var v *Term
 			_, err := ex.safeEval(post, func() *Term {
@@ -213,7 +234,7 @@ func nameObligations(res *FuncResult) {
 				via = "@" + parts[len(parts)-1]
 			}
 			base = fmt.Sprintf("%s.%s.%s[%s]%s", prop, o.Kind, res.Name, sn, via)
-		} else if o.Kind != "ensures" && !strings.HasPrefix(o.Kind, "frame") {
+		} else if o.Kind != "ensures" && !strings.HasPrefix(o.Kind, "frame") && !strings.HasPrefix(o.Kind, "requires:") {
 			base = base + "." + o.Kind
 		}
 		count[base]++
